@@ -122,11 +122,15 @@ def run(ck):
         ck.ob('R20.3', 'result-is-some-form', ok, L.loc(vals[0]) if vals else '', 'tail value Some((form, ui_support))')
         ub = next((c for c in H.calls_in(b['body']) if H.is_call_to(c, 'UiForm::build')), None)
         ufn = L.fn('uigen::form::UiForm::build')
-        ok = ufn is not None and not (ufn.get('output') or '').startswith('std::option::Option') and not [n for n in walk(ufn['body'], enter_closures=False) if n.get('k') in ('Try', 'Ret')]
+        # a function whose result type is neither Option nor Result has no failure exit: an early `return` still returns a form
+        def total(f):
+            return f is not None and not (f.get('output') or '').startswith(('std::option::Option', 'std::result::Result')) and \
+                not [n for n in walk(f['body'], enter_closures=False) if n.get('k') == 'Try']
+        ok = total(ufn)
         ck.ob('R20.3', 'form-builder-cannot-fail', ok, L.loc(ufn['body']) if ufn else '', 'UiForm::build returns Self without failure exits')
         for path in ('uigen::object::Widget::build', 'uigen::layout::Layout::build', 'uigen::object::UiObject::build', 'uigen::layout::LayoutItemContent::build'):
             fn = L.fn(path)
-            ok = fn is not None and not (fn.get('output') or '').startswith('std::option::Option') and not [n for n in walk(fn['body'], enter_closures=False) if n.get('k') in ('Try', 'Ret')]
+            ok = total(fn)
             ck.ob('R20.3', 'element-builder-cannot-fail|%s' % short(path), ok, L.loc(fn['body']) if fn else '', 'returns Self; the object keeps its place, class and name', fn=path)
 
     # ---- R20.4 preview ----------------------------------------------------------------------------
